@@ -169,4 +169,186 @@ Proof.
   - cbn [fst] in El. rewrite E in El. injection El as <- <-. apply (mrl_filled s1 _ p l r M2), F1, (mrl_err n _ _ M2 He).
   - apply F2; [exact He|exact Hin|rewrite Ec1; exact El].
 Qed.
+
+(* ---- D. a state satisfying (A) whose orders are all cached is ready ---- *)
+Fixpoint ss (l : list nat) : Prop := match l with [] => True | x :: l' => (forall y, In y l' -> x < y) /\ ss l' end.
+Lemma ssorted_b_sound l : ssorted_b l = true -> ss l.
+Proof.
+  induction l as [|x l IH]; [intros _; exact I|]. destruct l as [|y l'].
+  - intros _. split; [intros y []|exact I].
+  - intros H. change (Nat.ltb x y && ssorted_b (y :: l') = true) in H. apply andb_true_iff in H. destruct H as [H1 H2].
+    apply Nat.ltb_lt in H1. pose proof (IH H2) as [Hy Hs]. split; [|split; assumption].
+    intros z [<-|Hz]; [exact H1|]. specialize (Hy z Hz). lia.
+Qed.
+Lemma ins_sorted_ss x l : ss l -> ss (ins_sorted x l).
+Proof.
+  induction l as [|y l IH]; cbn [ins_sorted]; [intros _; split; [intros ? []|exact I]|]. intros [Hy Hs].
+  destruct (Nat.ltb_spec x y) as [Hlt|Hge].
+  - split; [|split; assumption]. intros z [<-|Hz]; [exact Hlt|]. specialize (Hy z Hz). lia.
+  - destruct (Nat.eqb_spec x y) as [->|Hne]; [split; assumption|].
+    split; [|apply IH, Hs]. intros z Hz. apply in_ins_sorted in Hz. destruct Hz as [->|Hz]; [lia|apply Hy, Hz].
+Qed.
+Lemma fold_ins_ss l : forall acc, ss acc -> ss (fold_left (fun acc x => ins_sorted x acc) l acc).
+Proof. induction l as [|x l IH]; intros acc H; cbn [fold_left]; [exact H|apply IH, ins_sorted_ss, H]. Qed.
+Lemma fold_ins_in x l : forall acc, In x (fold_left (fun acc x => ins_sorted x acc) l acc) <-> In x l \/ In x acc.
+Proof.
+  induction l as [|y l IH]; intros acc; cbn [fold_left In]; [tauto|]. rewrite IH, in_ins_sorted. intuition.
+Qed.
+Lemma nsort_ss l : ss (nsort l).
+Proof. apply fold_ins_ss. exact I. Qed.
+Lemma in_nsort x l : In x (nsort l) <-> In x l.
+Proof. unfold nsort. rewrite fold_ins_in. cbn [In]. tauto. Qed.
+Lemma ss_unique a : forall b, ss a -> ss b -> (forall x, In x a <-> In x b) -> a = b.
+Proof.
+  induction a as [|x a IH]; intros [|y b] Ha Hb H; [reflexivity| | |].
+  - exfalso. apply (H y). left. reflexivity.
+  - exfalso. apply (H x). left. reflexivity.
+  - destruct Ha as [Hx Ha], Hb as [Hy Hb].
+    assert (E : x = y).
+    { assert (H1 : In x (y :: b)) by (apply H; left; reflexivity). assert (H2 : In y (x :: a)) by (apply H; left; reflexivity).
+      destruct H1 as [H1|H1]; [congruence|]. destruct H2 as [H2|H2]; [congruence|]. specialize (Hx y H2). specialize (Hy x H1). lia. }
+    subst y. f_equal. apply IH; [exact Ha|exact Hb|]. intros z. split; intros Hz.
+    + assert (H1 : In z (x :: b)) by (apply H; right; exact Hz). destruct H1 as [<-|H1]; [specialize (Hx x Hz); lia|exact H1].
+    + assert (H1 : In z (x :: a)) by (apply H; right; exact Hz). destruct H1 as [<-|H1]; [specialize (Hy x Hz); lia|exact H1].
+Qed.
+Lemma node_of_eq t nd : ss nd -> Permutation (leaves t) nd -> node_of t = nd.
+Proof.
+  intros Hs HP. unfold node_of. apply ss_unique; [apply nsort_ss|exact Hs|]. intros x. rewrite in_nsort.
+  split; apply Permutation_in; [exact HP|apply Permutation_sym, HP].
+Qed.
+Lemma ss_seq m : forall a, ss (seq a m).
+Proof. induction m as [|m IH]; intros a; cbn; [exact I|]. split; [intros y Hy; apply in_seq in Hy; lia|apply IH]. Qed.
+
+Lemma tree_of_perm s : InvC n s -> forall f nd t, tree_of f (children s) nd = Some t -> Permutation (leaves t) nd.
+Proof.
+  intros HI. induction f as [|f IH]; intros nd t H; [discriminate|]. cbn [tree_of] in H.
+  destruct (Nat.eqb_spec (length nd) 1) as [E1|E1].
+  - injection H as <-. cbn [leaves]. rewrite <- (len1 nd E1). reflexivity.
+  - destruct (nget nd (children s)) as [[l r]|] eqn:E; [|discriminate].
+    destruct (tree_of f (children s) l) as [a|] eqn:Ea; [|discriminate].
+    destruct (tree_of f (children s) r) as [b|] eqn:Eb; [|discriminate]. injection H as <-. cbn [leaves].
+    destruct HI as [((_&Hc)&_) _]. destruct (Hc nd l r E) as (_&_&_&HP).
+    rewrite HP. apply Permutation_app; [apply IH, Ea|apply IH, Eb].
+Qed.
+Lemma remove1_complete x : forall b, In x b -> exists b', remove1 x b = Some b'.
+Proof.
+  induction b as [|y b IH]; cbn; [tauto|]. intros H. destruct (Nat.eqb_spec x y); [eauto|].
+  destruct H as [H|H]; [congruence|]. destruct (IH H) as (b' & ->). eauto.
+Qed.
+Lemma permb_complete a : forall b, Permutation a b -> permb a b = true.
+Proof.
+  induction a as [|x a IH]; intros b HP; cbn.
+  - apply Permutation_nil in HP. subst. reflexivity.
+  - destruct (remove1_complete x b) as (b' & E); [apply (Permutation_in _ HP); left; reflexivity|]. rewrite E.
+    apply IH. apply (Permutation_cons_inv (a := x)). rewrite HP. apply remove1_perm, E.
+Qed.
+Lemma tree_eqb_refl t : tree_eqb t t = true.
+Proof. induction t as [k|a IHa b IHb]; cbn; [apply Nat.eqb_refl|rewrite IHa, IHb; reflexivity]. Qed.
+Lemma list_eqb_nat_refl l : list_eqb Nat.eqb l l = true.
+Proof. induction l as [|x l IH]; cbn; [reflexivity|rewrite Nat.eqb_refl, IH; reflexivity]. Qed.
+Lemma nodup_b_complete l : NoDup l -> nodup_b l = true.
+Proof.
+  induction 1 as [|x l Hx ND IH]; cbn; [reflexivity|]. rewrite IH, andb_true_r. apply negb_true_iff, memb_false, Hx.
+Qed.
+Lemma pset_eqb_complete a b : (forall j, In j a <-> In j b) -> Program.set_eqb a b = true.
+Proof.
+  intros H. unfold Program.set_eqb. apply andb_true_iff. split; apply forallb_forall; intros j Hj; apply memb_In, H, Hj.
+Qed.
+
+Section OneState.
+Variable s : tstate.
+Hypothesis HI : InvC n s.
+Hypothesis HA : PA n s.
+Hypothesis Hsorted : sorted_keys_b s = true.
+Hypothesis Hfilled : forall p l r, nget p (children s) = Some (l, r) -> filled3 s p l r.
+
+Lemma sorted_entry p l r : nget p (children s) = Some (l, r) -> ss p /\ ss l /\ ss r.
+Proof.
+  intros E. unfold sorted_keys_b in Hsorted. rewrite forallb_forall in Hsorted.
+  specialize (Hsorted _ (nget_In _ _ _ E)). cbn [fst snd] in Hsorted.
+  apply andb_true_iff in Hsorted. destruct Hsorted as [H H3]. apply andb_true_iff in H. destruct H as [H1 H2].
+  repeat split; apply ssorted_b_sound; assumption.
+Qed.
+Lemma subtree_ready : forall f nd t, tree_of f (children s) nd = Some t -> ss nd -> length nd < N ->
+  rd i_inds s nd <> None -> good_node n nd ->
+  node_of t = nd /\ orders_ok_b n s false t = true /\ admissible_b n (sliced s) (cinds s) t = true.
+Proof.
+  induction f as [|f IH]; intros nd t H Hs HlN Hinds HG; [discriminate|].
+  pose proof (tree_of_perm s HI (S f) nd t H) as HPm. pose proof (node_of_eq t nd Hs HPm) as Eno.
+  split; [exact Eno|]. cbn [tree_of] in H.
+  destruct (rd i_inds s nd) as [x|] eqn:Ex; [|congruence]. destruct (rd_Some _ _ _ _ Ex) as (i & Hi & Hx).
+  destruct (HA nd i Hi) as [A1 A2]. destruct (A2 eq_refl x Hx) as (lg & El & Hen).
+  destruct (Nat.eqb_spec (length nd) 1) as [E1|E1].
+  - injection H as <-. cbn [orders_ok_b admissible_b]. split; [|reflexivity].
+    rewrite (len1 nd E1) in Ex. rewrite Ex.
+    unfold enum_ok, is_lr in Hen. apply Nat.eqb_eq in E1. rewrite E1 in Hen. cbn [orb] in Hen. subst x.
+    destruct (A1 lg El) as [B1 _]. apply Nat.eqb_eq in E1. rewrite (B1 E1). apply list_eqb_nat_refl.
+  - destruct (nget nd (children s)) as [[l r]|] eqn:E; [|discriminate].
+    destruct (tree_of f (children s) l) as [a|] eqn:Ea; [|discriminate].
+    destruct (tree_of f (children s) r) as [b|] eqn:Eb; [|discriminate]. injection H as <-.
+    destruct (sorted_entry nd l r E) as (_ & Sl & Sr). destruct (Hfilled nd l r E) as (_ & Fl & Fr).
+    destruct (entry_good n s nd l r HI E) as (_ & Gl & Gr).
+    destruct (chok_dec n HN _ _ _ _ (InvC_chok n s HI) E) as [Ll Lr].
+    destruct (IH l a Ea Sl ltac:(lia) Fl Gl) as (_ & Oa & Aa). destruct (IH r b Eb Sr ltac:(lia) Fr Gr) as (_ & Ob & Ab).
+    cbn [orders_ok_b admissible_b]. rewrite Oa, Ob, Aa, Ab, !andb_true_r. unfold cinds. rewrite Eno, Ex.
+    split; [reflexivity|].
+    unfold enum_ok, is_lr in Hen. apply Nat.eqb_neq in E1. rewrite E1 in Hen.
+    assert (EN : (length nd =? N) = false) by (apply Nat.eqb_neq; lia). rewrite EN in Hen. cbn [orb] in Hen.
+    destruct Hen as [NDx Hx']. apply andb_true_iff. split; [apply nodup_b_complete, NDx|].
+    apply pset_eqb_complete. intros j. rewrite Hx'.
+    destruct (cached_legs_are_net n s nd i lg (Node a b) HI Hi El ltac:(lia) HPm) as [W G].
+    destruct (sub_legs_slegs_ok n (sliced s) nd (Node a b) HG HPm) as [W' _].
+    apply wfl_keys_same; assumption.
+Qed.
+
+Theorem ready_state l r : err s = false -> wf_net_b n = true -> preproc_complete_b n s = true ->
+  tree_of (tfuel s) (children s) (seq 0 N) = Some (Node l r) -> contractible_b n s (Node l r) = true.
+Proof.
+  intros He Hwf Hpre Ht. unfold contractible_b. rewrite Hwf, Hpre, Ht, tree_eqb_refl, He. cbn [negb andb].
+  pose proof (tree_of_perm s HI _ _ _ Ht) as HPm.
+  assert (Efull : full_tree_b n (Node l r) = true) by (unfold full_tree_b; apply permb_complete, HPm).
+  rewrite Efull. cbn [andb].
+  pose proof (node_of_eq (Node l r) (seq 0 N) (ss_seq N 0) HPm) as Eno.
+  unfold tfuel in Ht. replace (length (children s) + 2) with (S (length (children s) + 1)) in Ht by lia.
+  cbn [tree_of] in Ht. rewrite seq_length in Ht. destruct (Nat.eqb_spec N 1) as [E1|_]; [lia|].
+  destruct (nget (seq 0 N) (children s)) as [[lc rc]|] eqn:E; [|discriminate].
+  destruct (tree_of _ (children s) lc) as [a|] eqn:Ea; [|discriminate].
+  destruct (tree_of _ (children s) rc) as [b|] eqn:Eb; [|discriminate]. injection Ht as <- <-.
+  destruct (sorted_entry _ lc rc E) as (_ & Sl & Sr). destruct (Hfilled _ lc rc E) as (Fp & Fl & Fr).
+  destruct (entry_good n s _ lc rc HI E) as (_ & Gl & Gr).
+  destruct (chok_dec n HN _ _ _ _ (InvC_chok n s HI) E) as [Ll Lr]. rewrite seq_length in Ll, Lr.
+  destruct (subtree_ready _ lc a Ea Sl Ll Fl Gl) as (_ & Oa & Aa). destruct (subtree_ready _ rc b Eb Sr Lr Fr Gr) as (_ & Ob & Ab).
+  rewrite Aa, Ab, !andb_true_r. cbn [orders_ok_b]. rewrite Oa, Ob, !andb_true_r. rewrite Eno.
+  destruct (rd i_inds s (seq 0 N)) as [x|] eqn:Ex; [|congruence]. destruct (rd_Some _ _ _ _ Ex) as (i & Hi & Hx).
+  destruct (HA _ i Hi) as [A1 A2]. destruct (A2 eq_refl x Hx) as (lg & El & Hen).
+  unfold enum_ok, is_lr in Hen. rewrite seq_length, Nat.eqb_refl, orb_true_r in Hen. subst x.
+  destruct (A1 lg El) as [_ B2]. rewrite B2 by apply seq_length. apply list_eqb_nat_refl.
+Qed.
+End OneState.
+
+(* ---- E. the corollary ---- *)
+Theorem checked_history_ready tr pe nodes l r :
+  wf_net_b n = true ->
+  preA_trace_b n tr (init_state n) = true -> tail_ok_b tr = true ->
+  let s1 := run n tr (init_state n) in
+  let s := extract n pe nodes s1 in
+  nodes_ok_b s1 nodes = true -> sorted_keys_b s = true -> preproc_complete_b n s = true -> err s = false ->
+  tree_of (tfuel s) (children s) (seq 0 N) = Some (Node l r) ->
+  contractible_b n s (Node l r) = true /\ PB s.
+Proof.
+  intros Hwf Hpre Htail s1 s Hnodes Hsorted Hpp He Ht.
+  destruct (checked_trace_QA tr Hpre) as [I1 A1]. fold s1 in I1, A1.
+  assert (P1 : PBe s1).
+  { unfold s1. rewrite <- (rev_involutive tr). apply tail_PBe; [rewrite rev_involutive; exact Hpre|exact Htail]. }
+  unfold nodes_ok_b in Hnodes. apply andb_true_iff in Hnodes. destruct Hnodes as [Hn1 Hn2].
+  rewrite forallb_forall in Hn1, Hn2.
+  destruct (extract_ok pe nodes s1 (conj I1 (conj A1 P1))) as ((I2&A2&P2)&M2&F2).
+  { intros e Hin. apply nmem_true, Hn1, Hin. }
+  fold s in I2, A2, P2, M2, F2. split; [|apply P2, He].
+  assert (Ec : children s = children s1) by apply M2.
+  apply (ready_state s I2 (A2 He) Hsorted); try assumption.
+  intros p l' r' E. rewrite Ec in E. specialize (Hn2 _ (nget_In _ _ _ E)). cbn [fst] in Hn2.
+  apply existsb_exists in Hn2. destruct Hn2 as (e & Hin & Heq). apply node_eqb_eq in Heq.
+  rewrite <- Heq. apply (F2 He e l' r' Hin). rewrite Heq. exact E.
+Qed.
 End Ready.
